@@ -17,7 +17,7 @@ ASSUMPTIONS = ["a tuple of exactly two sequences is not used (documented legacy 
                "True, 2.0 and numpy integers as max_edits/n_cpu are in neither the valid nor the invalid class"]
 EXHAUSTIVE = {"quick": ["4 engines x 9 containers x {default,hamming} on fixed witnesses", "all invalid-argument classes x 4 engines"],
               "thorough": ["4 engines x 9 containers x 9 containers(seqs2) x {default,hamming}", "all invalid-argument classes x 4 engines"]}
-REQUIRE = {"format_cases": 40, "container_cases": 100, "container_series_nondefault_index": 40, "invalid_cases": 60,
+REQUIRE = {"format_cases": 36, "container_cases": 100, "container_series_nondefault_index": 40, "invalid_cases": 53,
            "matrix_cells_checked": 1000, "cross_shape_nonsquare": 10, "d0_triplets_in_matrix_cases": 5, "asymmetric_triplet_sets": 3}
 SHARDS = {"quick": 6, "thorough": 16}
 
